@@ -642,6 +642,34 @@ def iter_obligations(pid, tier, seed):
     return {'obligations': obs, 'bounds': bounds}
 
 
+# ---------------------------------------------------------------------------
+# C16: reference accounting (C)
+
+def ref_obligations(pid, tier, seed):
+    from harness import h_ref
+    obs = []
+    quick = tier == 'quick'
+    t = 120 if quick else 1200
+    sh, bounds = tree_shapes(tier, seed, quick_extra=(4, 2))
+    for kind, tag, tpl, hist, L, I in sh:
+        m = shapes.n_ranks(tpl)
+        is_set = kind == 'TreeSet'
+        for g in ('write', 'del', 'read', 'range', 'setop', 'state') + (('inplace',) if is_set else ()):
+            if quick and m > 4 and g in ('setop', 'state', 'inplace', 'read'):
+                continue
+            two = g in ('write', 'range', 'setop', 'inplace', 'state') and (not quick or m <= 3)
+            args = [('x', 'int')] + ([('y', 'int')] if two else []) + [('op', 'int')]
+            P = dict(family='OO', kind=kind, tpl=tpl, L=L, I=I, group=g, prov='loaded')
+            base = '%s/%s/%s%s/%s/%s' % (pid, kind, tag, '' if (L, I) == (2, 2) else '%d%d' % (L, I), sid(tpl), g)
+            obs.append(dict(id=base, mod='h_ref', fn='ref_step', nk=m, args=args, pre=['0 <= op < %d' % h_ref.GROUPS[g]], params=P, timeout=t))
+            if tag == 'core' and hist and g in ('write', 'del') and (not quick or m <= 5):
+                N = max(k for _, k in hist) + 1
+                obs.append(dict(id=base + '/grown', mod='h_ref', fn='ref_step', nk=N, args=args, pre=['0 <= op < %d' % h_ref.GROUPS[g]],
+                                params=dict(P, prov='grown', hist=hist), timeout=t))
+    bounds.update(per_condition_timeout_s=t)
+    return {'obligations': obs, 'bounds': bounds}
+
+
 COMMON_ASSUME = [
     'key objects are observed by the containers only through rich comparison, identity and None-ness '
     '(true for the object-key templates; native-key families are covered by their own obligations where stated)',
@@ -848,5 +876,22 @@ PROPS = {
                    'newBTreeItems, Bucket_getiter/bucket iterators, _BTree_set, _BTree_clear, Bucket_deleteNextBucket', 'BTrees._base: '
                    '_TreeItems, _Tree.iterkeys/iteritems/__iter__, Bucket iteration'],
         assumptions=COMMON_ASSUME + ['schedules up to the stated pattern length; single thread'],
+    ),
+    'C16': dict(
+        families=['OO'],
+        gen=lambda tier, seed: ref_obligations('C16', tier, seed),
+        explanation='Compiled OO containers are built from catalogue shapes (loaded through __setstate__ and grown through the API) '
+                    'whose keys AND values are distinct Python objects with symbolic order. Before and after one solver-chosen call '
+                    '(insert/replace/setdefault/update, delete/pop/popitem/clear, lookups and iteration, range searches with '
+                    'exclusive/omitted bounds and lazy-sequence indexing, set algebra and operators, in-place operators, state '
+                    'capture/copy/__setstate__/conflict merge/_check) the reference count of every key and value object must '
+                    'exceed its baseline by exactly the number of leaf and separator slots holding it (counted from the state '
+                    'graph); read-only calls must leave every node\'s reference count unchanged; after the container is destroyed '
+                    'every count is back at its baseline. Over-releases that kill the interpreter are replayed via the decision journal.',
+        functions=['_OOBTree.so: INCREF/DECREF pairing in _bucket_set, bucket_split, BTree_grow, BTree_split, _BTree_set (separator '
+                   'ownership), _bucket_clear, _BTree_clear, BTree_rangeSearch, newBTreeItems, BTreeItems_*, set_operation, '
+                   'finiSetIteration, bucket_merge, bucket_getstate/_setstate, BTree_getstate/_setstate, deallocators'],
+        assumptions=COMMON_ASSUME + ['memory bounds are observed only through crashes / reference-count drift here (no sanitizer build '
+                                     'in the quick tier)'],
     ),
 }
